@@ -54,7 +54,19 @@ def main(argv):
             if binfo.get('untranslated_fns'):
                 rep.notes.append('functions whose source shape the translator does not know (reference form in Gen/Fns.v, tied by '
                                  'harness/fncorr.py instead of by the obligation): %s' % binfo['untranslated_fns'])
-    except Exception:
+    except Exception as e:
+        tb = traceback.extract_tb(e.__traceback__)
+        src = os.path.realpath(os.environ.get('VERIF_SRC', '/repo/src'))
+        if tb and os.path.realpath(tb[-1].filename).startswith(src) and not replay:
+            # the IMPLEMENTATION raised at a place where the exploration does not expect it to (on the unchanged tree every
+            # such place is either guarded or never raises): reported as a violation, with the traceback as the replay
+            os.makedirs(os.path.join(ROOT, 'replays', prop), exist_ok=True)
+            path = os.path.join(ROOT, 'replays', prop, 'implementation_raised.json')
+            json.dump({'kind': 'no-failing-input-found', 'broken': {'exploration': 'the implementation raised %s while a value was being observed' % type(e).__name__,
+                                                                     'traceback': traceback.format_exc().splitlines()[-24:]}}, open(path, 'w'), indent=1)
+            print('VIOLATION property=%s replay=%s no-failing-input-found' % (prop, path))
+            print('  the implementation raised %s: %s (outside every place where the exploration expects an exception)' % (type(e).__name__, str(e)[:300]))
+            return 1
         print('INTERNAL: harness error\n' + traceback.format_exc())
         return 2
     rep.rule = cfg.get('rule', '')
